@@ -31,12 +31,14 @@ Fixpoint proj_reports (evs : list event) : list report :=
 Record acase := {
   ac_cfg : cfg; ac_def : Z; ac_over : list (Z * Z);
   ac_exps : list expectation; ac_msgs : list (Z * msg);
-  ac_succ : list (Z * Z * Z); ac_errs : list (Z * Z); ac_reports : list report; ac_np : list Z }.
+  ac_succ : list (Z * Z * Z); ac_errs : list (Z * Z); ac_reports : list report;
+  ac_np : list (Z * Z) }.   (* partitioner log: (message id, partition count offered) *)
 
-(* the partitioner is consulted once per message that finds an expectation, with the configured count *)
-Fixpoint np_expected (def : Z) (over : list (Z * Z)) (nexp : nat) (ms : list (Z * msg)) : list Z :=
+(* the partitioner is consulted once per message that finds an expectation, with the configured count.
+   [ac_msgs] is the arrival order on the input channel (with two senders: as consumed by the mock). *)
+Fixpoint np_expected (def : Z) (over : list (Z * Z)) (nexp : nat) (ms : list (Z * msg)) : list (Z * Z) :=
   match ms, nexp with
-  | (t, _) :: r, S n => partitions_for def over t :: np_expected def over n r
+  | (t, m) :: r, S n => (m_id m, partitions_for def over t) :: np_expected def over n r
   | _, _ => []
   end.
 
@@ -44,43 +46,50 @@ Definition ok_async (a : acase) : bool :=
   let h := async_history (ac_cfg a) (ac_exps a) (map snd (ac_msgs a)) in
   list_eqb z3_eqb (proj_succ h) (ac_succ a) && list_eqb z2_eqb (proj_errs h) (ac_errs a) &&
   list_eqb report_eqb (proj_reports h) (ac_reports a) &&
-  list_eqb Z.eqb (np_expected (ac_def a) (ac_over a) (length (ac_exps a)) (ac_msgs a)) (ac_np a).
+  list_eqb z2_eqb (np_expected (ac_def a) (ac_over a) (length (ac_exps a)) (ac_msgs a)) (ac_np a).
 Definition mismatches_async := mismatches ok_async.
+
+(* ---- sync mock: a script of SendMessage / SendMessages calls, then Close ---- *)
+Inductive ccall := KSend (t : Z) (m : msg) | KBatch (l : list (Z * msg)).   (* t: topic index *)
+
+Definition call_of (c : ccall) : call :=
+  match c with KSend _ m => CSend m | KBatch l => CBatch (map snd l) end.
+Definition topics_of (c : ccall) : list (Z * Z) :=            (* message id -> topic *)
+  match c with KSend t m => [(m_id m, t)] | KBatch l => map (fun x => (m_id (snd x), fst x)) l end.
+
+(* per call: returned partition, returned offset, error id (0 = nil), (Partition, Offset) of every message
+   after the call (the harness initialises them to -7 / -9), reporter calls during the call.
+   SendMessages returns only an error: the harness writes (0, 0, 0) for nil and (-1, -1, e) otherwise. *)
+Definition sobs := (Z * Z * Z * list (Z * Z) * list report)%type.
 
 Record scase := {
   sc_def : Z; sc_over : list (Z * Z);
-  sc_exps : list expectation; sc_msgs : list (Z * msg);
-  sc_rets : list (Z * Z * Z * Z * list report);   (* returned partition, offset, msg.Partition after, error id (0 = nil), reports *)
-  sc_close : list report; sc_np : list Z }.
+  sc_exps : list expectation; sc_calls : list ccall;
+  sc_rets : list sobs;
+  sc_close : list report;
+  sc_np : list (Z * Z) }.     (* partitioner log: (message id, partition count offered) in call order *)
 
-Definition sret_obs (r : sret) (rp : list report) : Z * Z * Z * Z * list report :=
-  match r with
-  | SOk retp off msgp => (retp, off, msgp, 0, rp)
-  | SErr e => (-1, -1, -7, e, rp)          (* -7: harness initialises msg.Partition to -7 *)
+Definition touch_obs (t : touch) : Z * Z :=
+  (match fst t with Some p => p | None => -7 end, match snd t with Some o => o | None => -9 end).
+
+Definition callres_obs (r : callres) : sobs :=
+  match r_ret r with
+  | SOk retp off => (retp, off, 0, map touch_obs (r_touch r), r_rep r)
+  | SErr e => (-1, -1, e, map touch_obs (r_touch r), r_rep r)
   end.
 
-(* msg.Partition is assigned before the checker runs: on a checker failure or scripted error it holds the choice *)
-Definition sync_obs_eqb (m : msg) (mo : sret * list report) (o : Z * Z * Z * Z * list report) : bool :=
-  let '(retp, off, msgp, e, rp) := o in
-  let '(retp', off', msgp', e', rp') := sret_obs (fst mo) (snd mo) in
-  Z.eqb retp retp' && Z.eqb off off' && Z.eqb e e' && list_eqb report_eqb rp rp' &&
-  match fst mo, m_pres m with
-  | SOk _ _ p, _ => Z.eqb msgp p
-  | SErr _, POk p => (Z.eqb msgp p || Z.eqb msgp (-7))
-  | SErr _, PErr _ => Z.eqb msgp (-7)
-  end.
+Definition sobs_eqb (a b : sobs) : bool :=
+  let '(p, o, e, ts, rp) := a in let '(p', o', e', ts', rp') := b in
+  Z.eqb p p' && Z.eqb o o' && Z.eqb e e' && list_eqb z2_eqb ts ts' && list_eqb report_eqb rp rp'.
 
-Fixpoint zip_all {A B C} (f : A -> B -> C -> bool) (a : list A) (b : list B) (c : list C) : bool :=
-  match a, b, c with
-  | [], [], [] => true
-  | x :: a', y :: b', z :: c' => f x y z && zip_all f a' b' c'
-  | _, _, _ => false
-  end.
+(* the partitioner is consulted for exactly the messages the model says, with the configured count of their topic *)
+Definition np_of (def : Z) (over : list (Z * Z)) (tops : list (Z * Z)) (rs : list callres) : list (Z * Z) :=
+  map (fun id => (id, match lookup id tops with Some t => partitions_for def over t | None => -1 end))
+      (flat_map r_asked rs).
 
 Definition ok_sync (a : scase) : bool :=
-  let ms := map snd (sc_msgs a) in
-  let '(s, outs) := run_sync (init (sc_exps a)) ms in
-  zip_all sync_obs_eqb ms outs (sc_rets a) &&
-  list_eqb report_eqb (proj_reports (close_events s)) (sc_close a) &&
-  list_eqb Z.eqb (np_expected (sc_def a) (sc_over a) (length (sc_exps a)) (sc_msgs a)) (sc_np a).
+  let '(s, outs) := run_calls (init (sc_exps a)) (map call_of (sc_calls a)) in
+  list_eqb sobs_eqb (map callres_obs outs) (sc_rets a) &&
+  list_eqb report_eqb (sync_close s) (sc_close a) &&
+  list_eqb z2_eqb (np_of (sc_def a) (sc_over a) (flat_map topics_of (sc_calls a)) outs) (sc_np a).
 Definition mismatches_sync := mismatches ok_sync.
